@@ -82,8 +82,9 @@ def run(facts, res):
                         rur.append((p, cls, site, subj))
                         continue
                     mk = roles_of(facts).path("marker")
-                    gsubj = subj.replace(mk, "<marker>")
-                    if gsubj in EXCEPTIONS and _validate_exception(subj, body, site, bl, tok):
+                    import re as _re
+                    gsubj = _re.sub(r"<marker>::\{closure#\d+\}", "<marker>", subj.replace(mk, "<marker>"))
+                    if gsubj in EXCEPTIONS and _validate_exception(subj, body, site, bl, tok, facts, mk):
                         res.exception(res.prop + "|R1|" + gsubj, EXCEPTIONS[gsubj])
                         continue
                     chain = []
@@ -202,20 +203,35 @@ def run(facts, res):
     res.instance("R3", "%d function signatures and struct fields inspected for guard types" % n3, None)
 
 
-def _validate_exception(subj, body, site, bl, tok):
-    """the recursive check_delta argument must derive from the `parents` field of the held delta"""
+def _validate_exception(subj, body, site, bl, tok, facts=None, marker=None):
+    """the recursive check_delta argument must derive from the `parents` field of the held delta: either directly
+    (`self.check_delta(parent)` in a loop over parents) or through an iterator adaptor over `parents` whose closure
+    passes its own element on"""
+    from ..guards import root_of
     du = du_of(body)
+
+    def from_held_parents(t):
+        for x in walk(t):
+            if x[0] == "field" and x[2] == "parents":
+                _, inside = root_of(x[1])
+                if tok in inside:
+                    return True
+        return False
+    if site.closures and facts is not None and not any(t.path == marker for t in site.targets):
+        if not site.term.args or not from_held_parents(du.operand_term(site.term.args[0], 30)):
+            return False
+        n = 0
+        for cb in site.closures:
+            cdu = du_of(cb)
+            for bi, t in cb.calls():
+                if t.callee is not None and t.callee.target() == marker:
+                    n += 1
+                    if len(t.args) < 2 or not any(x[0] == "param" and x[1] == 2 for x in walk(cdu.operand_term(t.args[1], 20))):
+                        return False
+        return n > 0
     if len(site.term.args) < 2:
         return False
-    t = du.operand_term(site.term.args[1], 30)
-    for x in walk(t):
-        if x[0] == "field" and x[2] == "parents":
-            # and it must be reached through the held guard
-            from ..guards import root_of
-            _, inside = root_of(x[1])
-            if tok in inside:
-                return True
-    return False
+    return from_held_parents(du.operand_term(site.term.args[1], 30))
 
 
 def _cycles(graph, maxlen):
